@@ -15,6 +15,24 @@ use std::sync::{Arc, Mutex};
 /// decode to a different case there
 pub static STORM_PHASE: AtomicBool = AtomicBool::new(false);
 
+/// Replay of a hang report: say when the calls into the library are over and
+/// only the harness's own oracles remain, so that a slow oracle is never
+/// mistaken for a library call that does not return.
+pub fn phase_begin() {
+    if std::env::var("FCV_PHASE_MARK").is_ok() {
+        use std::io::Write;
+        println!("PHASE case-begin");
+        let _ = std::io::stdout().flush();
+    }
+}
+pub fn phase_mark() {
+    if std::env::var("FCV_PHASE_MARK").is_ok() {
+        use std::io::Write;
+        println!("PHASE library-calls-done");
+        let _ = std::io::stdout().flush();
+    }
+}
+
 pub struct Eval {
     pub violations: Vec<Violation>,
     pub nontrivial: bool,
